@@ -15,12 +15,13 @@
   Not proved (kept as `…_full : Prop`, asserted nowhere; evaluated by the oracle of harness/pC10.py):
   * `iba_energy_full` — the stream-frame 4π integral of the IBA phase function equals the Romberg 1-2-frame integral
     within 2 % (rotation invariance of the sphere integral + quadrature error);
-  * `iba_ks_nonneg_full` — needs the positivity of the 65-point Romberg weights (the integrand is proved non-negative);
+  * (closed: `iba_ks_nonneg` is now a theorem — the 65 Romberg weights are positive, `Proofs/Romberg.lean`);
   * `ks_nonneg_difference_theories_full` — SFT / DMRT / SCE obtain ks or ka as a difference of two `Im √·`; the oracle
     finds `ka < 0` for dmrt_qca_shortrange inside the quantifier space (see the harness).
 -/
 import SmrtVerif.Model.Emmodel
 import SmrtVerif.Proofs.Emmodel
+import SmrtVerif.Proofs.Romberg
 
 set_option linter.unusedVariables false
 
@@ -227,10 +228,34 @@ def iba_ka_nonneg_full : Prop :=
     0 ≤ f → f ≤ 1 → 0 < e0.re → 0 < eps.re → 0 ≤ e0.im → 0 ≤ eps.im → 0 ≤ freq →
     iba v ft Real.pi f e0 eps freq = .ok o → 0 ≤ o.ka ∧ 0 ≤ o.eps.im
 
-/-- full claim: the Romberg value of a non-negative integrand is non-negative (positivity of the Romberg weights) -/
-def iba_ks_nonneg_full : Prop :=
-  ∀ (v : IbaVariant) (ft : ℝ → ℝ), (∀ k, 0 ≤ ft k) → ∀ (f : ℝ) (e0 eps : Cx ℝ) (freq : ℝ) (o : IbaOut ℝ),
-    iba v ft Real.pi f e0 eps freq = .ok o → 0 ≤ o.ks
+/-- `compute_ks` of a non-negative spectrum and coefficient is non-negative: the integrand is (above) and all 65 weights of
+    `scipy.integrate.romb` on `2^6 + 1` samples are positive (`Proofs/Romberg.lean`: `romb_is_tableau`, `romb_weights`, `wR6_pos`) -/
+theorem ibaKs_nonneg (ft : ℝ → ℝ) (hft : ∀ k, 0 ≤ ft k) (coeff k0 : ℝ) (hc : 0 ≤ coeff) (e : Cx ℝ) : 0 ≤ ibaKs ft coeff k0 e := by
+  unfold ibaKs
+  have hdx : (0 : ℝ) ≤ muGrid 0 - muGrid 1 := by unfold muGrid; norm_num
+  have := romb6_nonneg (fun i => ibaKsIntegrand ft coeff k0 e (muGrid i)) (muGrid 0 - muGrid 1) hdx (by
+    intro n _
+    unfold ibaKsIntegrand
+    have := hft (2.0 * k0 * Transc.sqrt ((1.0 - muGrid n) / 2.0) * cabs (csq e))
+    have hm := mul_self_nonneg (muGrid n : ℝ)
+    positivity)
+  positivity
+
+/-- **iba_ks_nonneg** (the former `_full` claim, now proved): whatever the variant, fractional volume, permittivities and frequency,
+    the scattering coefficient IBA returns is non-negative as soon as the microstructure spectrum is -/
+theorem iba_ks_nonneg (v : IbaVariant) (ft : ℝ → ℝ) (hft : ∀ k, 0 ≤ ft k) (f : ℝ) (e0 eps : Cx ℝ) (freq : ℝ) (o : IbaOut ℝ)
+    (h : iba v ft Real.pi f e0 eps freq = .ok o) : 0 ≤ o.ks := by
+  unfold iba at h
+  cases he : ibaEpsEff v f e0 eps with
+  | error err => rw [he] at h; simp [bind, Except.bind] at h
+  | ok e =>
+    rw [he] at h
+    simp only [bind, Except.bind, pure, Except.pure, Except.ok.injEq] at h
+    subst h
+    exact ibaKs_nonneg ft hft _ _ (ibaCoeff_nonneg Real.pi_pos.le (meanSqFieldRatio_nonneg v e e0 eps) _ e0 eps) e
+
+example : 0 ≤ ibaKs (fun k => Micro.expFt Real.pi 0.3 2e-4 k) 1 100 ⟨1.5, 0⟩ :=
+  ibaKs_nonneg _ (fun k => expFt_nonneg Real.pi 0.3 2e-4 k Real.pi_pos.le (by norm_num) (by norm_num) (by norm_num)) 1 100 (by norm_num) _
 
 /-- full claim (quadrature statement, 2 %): the 4π integral of the IBA phase function in the stream frame, evaluated
     through the mode-0 Fourier coefficient, equals the Romberg 1-2-frame integral `ks` -/
